@@ -1,9 +1,10 @@
 #!/bin/bash
-# usage: seed_verify.sh <PID> <A|B> [srcdir]   - confirm an agent's seeded change myself and keep it under /verif/seeded/
+# usage: seed_verify.sh <PID> <A|B> [srcdir] [stored-letter]   - confirm an agent's seeded change myself and keep it under /verif/seeded/
 # Confirms: patch applies to /repo HEAD; demo passes without it and fails with it; the unedited suite passes with it.
 set -u
 PID=$1; L=$2; SRC=${3:-/tmp/wt_$PID}
-ID="${PID}${L}"
+OL=${4:-$L}
+ID="${PID}${OL}"
 WT=/tmp/sv_$ID
 OUT=/verif/seeded/$ID
 rm -rf "$WT"; git -C /repo worktree prune
